@@ -131,7 +131,12 @@ class FileResolver:
                     continue
                 if any(spec.match_file(filename) for spec in gitignore_specs):
                     continue
-                if tool_ignore and tool_ignore.match_file(filename):
+                # Match the name and, like for directories, the path relative to the walk
+                # root, so that rules containing a slash (docs/draft.md) apply to files too.
+                if tool_ignore and (
+                    tool_ignore.match_file(filename)
+                    or tool_ignore.match_file(str(rel_to_root / filename))
+                ):
                     continue
                 yield filepath
 
